@@ -303,6 +303,23 @@ def c15_reap(ctx):
                     if s_['k'] == 'assign' and s_['rv']['k'] == 'binop' and s_['rv']['op'] in ('Lt', 'Gt', 'Le', 'Ge') and 'len(' in (render(rf.expr_of_operand(s_['rv']['a'])) + render(rf.expr_of_operand(s_['rv']['b']))):
                         cmps.append(b2)
         stale = [b for b in idx_removes if rf.blocks[b]['term']['target'] is not None and not rf.must_pass(rf.blocks[b]['term']['target'], set(idx_removes), set(cmps))]
+        # an index produced by a search of the table in the same turn (`position`) is as fresh as one guarded by `index < len()`
+        searches = [b2 for b2, t2 in rf.calls() if (t2['func'].get('fn') or '').endswith(('::position', '::rposition')) and not rf.blocks[b2]['cleanup']]
+        if idx_removes and not cmps and searches:
+            stale = [b for b in idx_removes if rf.blocks[b]['term']['target'] is not None and not rf.must_pass(rf.blocks[b]['term']['target'], set(idx_removes), set(searches))]
+            cmps = searches
+        # the thread that was tested is the thread that is removed: no release of the table's lock between is_finished() and remove(index)
+        from .rules_locks import _reach_avoiding
+        relocked = False
+        for b in idx_removes:
+            for site in H.holds_at_term(b, 'SchedulerCore.threads'):
+                if site[0] not in ('c', 'a'):
+                    continue
+                for fb, ft in rf.calls():
+                    if (ft['func'].get('fn') or '').endswith('::is_finished') and site[1] != fb and _reach_avoiding(rf, fb, site[1], b) and _reach_avoiding(rf, site[1], b, fb):
+                        relocked = True
+        if relocked:
+            out.append(bad('ORD-C15-reap', key + '|index-same-hold', 'the thread table is unlocked between the is_finished() test and remove(index): the index designates whatever thread sits there after the table was changed by somebody else (a live thread is removed and joined, or the removal panics under the scheduler-wide lock)', fn=rf.name))
         if idx_removes and (not cmps or stale):
             out.append(bad('ORD-C15-reap', key + '|index-fresh', 'a thread is removed from the table by an index that was computed before an earlier removal: with two finished threads in one pass the index is stale (wrong thread removed, or a panic while the threads lock is held, which poisons scheduling for every object)', fn=rf.name))
         # the "despawned while busy" sanity panic may only fire for a thread that exited cleanly: a thread killed by a panicking job dies
